@@ -15,6 +15,7 @@ PROPS = {
             "HqModel.C15.c15_partial_F",
             "HqModel.C15.c15_counterexample",
             "HqModel.C15.c15_counterexample_two_workers",
+            "HqModel.C15.c15_counterexample_weights",
         ],
         "parts": [{
             "component": "sched", "driver": "hqm-sched",
@@ -25,8 +26,13 @@ PROPS = {
             "thorough": {"cases": 1500, "shards": 16, "extra": []},
         }],
         "assumptions": [
-            "c15_partial_F is PARTIAL: PriorityRespecting is proved for the fragment F only; outside F the property is false "
-            "for the code as it is (c15_counterexample, c15_counterexample_two_workers; KNOWN_FINDINGS F7)",
+            "c15_partial_F is PARTIAL: PriorityRespecting is proved for the fragment F = F1 (at most one request class with ready "
+            "tasks, any cluster) u F2 (one worker, at most two such classes, default class weights) only; outside F the property "
+            "is false for the code as it is (c15_counterexample, c15_counterexample_two_workers, c15_counterexample_weights; "
+            "KNOWN_FINDINGS F7)",
+            "the F2 part of c15_partial_F has the hypothesis BatchesSpec inst (batches inst) (closed-form specification of what "
+            "create_task_batches computes); it is not yet a theorem about the loop of `batches`, it is evaluated by the driver on "
+            "every generated instance (out-tag spec; 12000 of 12000 surveyed instances satisfy it)",
             "HiGHS is not modelled: its solution is an input of the model; that it is feasible and optimal for the modelled "
             "MILP is assumed by the theorems and checked by exhaustive enumeration of the integer box on every generated instance "
             "(out-tags feasible/optimal); theorems quantify over EVERY optimal solution, so any tie-break of the solver is covered",
